@@ -240,6 +240,17 @@ def ob_ensemble(names):
                 ref = kron_all([refs.ref_matrix(factors[i].vec, SINGLE["Q"]) for i in order])
                 Bj, _ = sorted_basis("QQ", list(names))
                 out.append(Eq(f"state at {idx} == rho_A[{a}] (x) rho_B[{b}]", refs.ref_matrix(res.state(idx).vec, Bj), ref, 1e-8))
+        # a third ensemble (two outcomes, concrete) on a third qubit: every grouping reports one axis per measurement, (2, 3, 2), and
+        # the probability at (a, b, c) is the product of the three
+        cC = single_csys("Q", 5)
+        mC = mk_mprocess(cC, [objlib.hs_from_kraus(ks, "Q1") for ks in libk["zproj"]])
+        eC = comp(mC, mk_state(cC, tomo_lib.dm_to_vec(tomo_lib.state_mats("Q1")[4], "Q1")))
+        pC = list(flat(eC.prob_dist.ps))
+        for label, r3 in (("(A x B) x C", tensor_product(res, eC)), ("A x (B x C)", tensor_product(eA, tensor_product(eB, eC))), ("flat call", tensor_product(eA, eB, eC))):
+            out.append(Holds(f"{label}: reported shape == (2, 3, 2)", tuple(r3.prob_dist.shape) == (2, 3, 2)))
+            out.append(Holds(f"{label}: 12 member states", len(r3.states) == 12))
+            want = [pA[a] * pB[b] * pC[c_] for a in range(2) for b in range(3) for c_ in range(2)]
+            out.append(Eq(f"{label}: probabilities == p_A(a) p_B(b) p_C(c) in row-major (a, b, c) order", r3.prob_dist.ps, np.array(want, dtype=object), 1e-9))
         return out
     return FnOb([("t", "real", 0.1, 0.9)], run, max_paths=60, expect_nonlinear=True, eager_ite=True)
 
